@@ -504,10 +504,12 @@ pub fn run(run: &mut Run) {
     run.assumptions.push("correctness of Arithmetic itself is C01's business; the paired check is a differential one".into());
     run.assumptions.push("the effective dof is the crate's documented formula (.../(n+1) ... - 2), not textbook Welch–Satterthwaite; its sensitivity to the rounding of the variances is bounded numerically and added to the tolerance".into());
     let _ = (ek, EK::TooFewSamples);
+    crate::props::history::add(run, "C04", &[crate::props::history::PAIRED, crate::props::history::UNPAIRED, crate::props::history::ARITH], 3_000, 200_000);
 }
 
 pub fn replay(sub: &str, v: &Value, obs: &mut Obs) -> Option<PResult> {
     Some(match sub {
+        "history" => crate::props::history::case(&de(v), obs),
         "paired" => paired_case(&de(v), obs),
         "unpaired" => unpaired_case(&de(v), obs),
         "lengths" => len_case(&de(v), obs),
